@@ -18,7 +18,8 @@ RULE = ("tables of 0..N rows for Interval, Bed6, Bed12, BedGraph, NarrowPeak, Ch
         "n<=6 thorough, each also with an empty first piece and with a random empty piece) x EVERY writer plan: one 'w' writer "
         "(calls / one stream) on a plain or gzip target; 'w' writer for the first k pieces then one appending writer per piece or "
         "one appending writer fed by a stream, for every k, plain or gzip; only appending writers on a new file, a new gzip file, "
-        "or an existing empty file; observables: the exact bytes on disk and the table read back. Non-trivial = >= 2 writes, or a "
+        "or an existing empty file; header-bearing formats (VCF, a delimited buffer with a column-name header) with ZERO rows in total "
+        "(one empty table, several empty pieces, a stream of empty chunks); lazily read tables re-written from row-indexed pieces; observables: the exact bytes on disk and the table read back. Non-trivial = >= 2 writes, or a "
         "sequence length within 1 of a multiple of the line width, or append/gzip/stream mode")
 EXHAUSTIVE = {"quick": False, "thorough": False}
 MODEL_OPS = {"write"}
@@ -51,7 +52,9 @@ MANIFEST = {
             "(float_partial); gzip/OS append semantics are externals; header text itself is the code's choice (only 'exactly once, "
             "in front' is required). SAM: an empty optional-fields column is written as an empty 12th cell (trailing TAB); by the "
             "property's letter (tab-separated columns of the 12-column table, round trip holds) this is not counted as a violation. "
-            "Five defects found and fixed (known_findings.json).",
+            "Also implementation-vs-reference only (no Lean model, the lazy extractor is C04's): tables READ LAZILY from a text "
+            "file, row-indexed into pieces (slices, masks, index lists) and written as np.concatenate(pieces) in one call or one "
+            "after the other must give the selected source lines once each. Six defects found and fixed (known_findings.json).",
     "technique": "Lean 4 proof over an executable model (induction over rows / write list / writer sessions) + constants regenerated from source + differential correspondence with the implementation",
     "design": "§6 C03",
 }
@@ -72,8 +75,24 @@ T = {
     "gfa": ("GfaSequenceBuffer", "SequenceEntry", ".gfa", [("name", "id"), ("sequence", "seq")]),
     "fasta": ("MultiLineFastaBuffer", "SequenceEntry", ".fa", [("name", "id"), ("sequence", "seq")]),
     "fastq": ("FastQBuffer", "SequenceEntryWithQuality", ".fq", [("name", "id"), ("sequence", "seq"), ("quality", "qual")]),
+    # a delimited buffer with a column-name header line (get_bufferclass_for_datatype(..., has_header=True))
+    "csvh": ("csvh", "ChromosomeSize", ".tsv", c02.FORMATS["sizes"]["cols"]),
 }
-HAS_HEADER = {"vcf", "vcfs"}
+HAS_HEADER = {"vcf", "vcfs", "csvh"}
+CSVH_HEADER = "name\tsize\n"          # the column names of the table, TAB separated
+
+_CSVH = None
+
+
+def _bt(name):
+    global _CSVH
+    if name != "csvh":
+        return c02._buffer_type(name)
+    if _CSVH is None:
+        from bionumpy.io.delimited_buffers import get_bufferclass_for_datatype
+        from bionumpy.datatypes import ChromosomeSize
+        _CSVH = get_bufferclass_for_datatype(ChromosomeSize, delimiter="\t", has_header=True)
+    return _CSVH
 MODES = ["plain", "gzip", "stream", "stream_gzip", "append", "append_gzip", "append_stream", "append_stream_gzip",
          "append0", "append0_gzip", "append0_empty"]
 FIRST_MODES = ("append", "append_gzip", "append_stream", "append_stream_gzip")   # modes that use case["first"]
@@ -101,7 +120,7 @@ def n_calls(c):
     for _, stream, cnt in sessions(c):
         part = ps[i:i + cnt]
         i += cnt
-        k += sum(1 for p in part if p) if stream else len(part)
+        k += len(part)          # every table / chunk handed to a writer is one write call (empty ones included)
     return k
 
 
@@ -254,11 +273,62 @@ def cases(tier, rng):
             cuts = sorted(rng.sample(range(0, n + 1), min(n + 1, rng.choice([0, 0, 1, 2, 3]))))
             yield {"op": "write", "fmt": fmt, "rows": rows, "cuts": cuts, "mode": rng.choice(MODES),
                    "first": rng.randrange(1, len(cuts) + 2)}
+    # 2b. lazily read, row-indexed pieces written back
+    yield from rewrite_cases(tier, rng)
+    # 2c. header-bearing formats with zero rows in total: the header must still be there exactly once
+    for fmt in ("vcf", "vcfs", "csvh"):
+        for cuts in ([], [0], [0, 0], [0, 0, 0]):
+            for mode in MODES:
+                for first in (range(1, len(cuts) + 2) if mode in FIRST_MODES else [1]):
+                    yield {"op": "write", "fmt": fmt, "rows": [], "cuts": list(cuts), "mode": mode, "first": first}
+        for n, cuts in ((3, [0, 2, 2]), (3, [0, 0, 2, 3]), (2, [0, 1, 1, 2]), (1, [0, 1])):      # [0 rows, 2 rows, 0 rows, 1 row] ...
+            for mode in MODES:
+                for first in (range(1, len(cuts) + 2) if mode in FIRST_MODES else [1]):
+                    yield {"op": "write", "fmt": fmt, "rows": [g_row(rng, fmt) for _ in range(n)], "cuts": list(cuts), "mode": mode, "first": first}
     # 3. FASTA wrap boundaries, exhaustive around multiples of the width
     for L in [0, 1, 79, 80, 81, 159, 160, 161, 239, 240, 241] + (list(range(2, 79, 7)) if big else []):
         for L2 in [0, 1, 80, 81]:
             rows = [["s" + str(L), "A" * L], ["t", "C" * L2]]
             yield {"op": "write", "fmt": "fasta", "rows": rows, "cuts": [1] if (L + L2) % 2 else [], "mode": "plain", "first": 1}
+
+
+REWRITE_FMTS = ["bed3", "bed6", "bdg", "narrowpeak", "gtf", "sam", "vcfs"]
+SRC_HEADER = {"vcfs": "##fileformat=VCFv4.2\n##source=c03\n#CHROM\tPOS\tID\tREF\tALT\tQUAL\tFILTER\tINFO\n",
+              "sam": "@HD\tVN:1.6\tSO:unsorted\n@SQ\tSN:c\tLN:1000\n"}
+
+
+def _select(n, sel):
+    idx = list(range(n))
+    if "slice" in sel:
+        a, b, st = sel["slice"]
+        return idx[a:b:st]
+    if "mask" in sel:
+        return [i for i, m in zip(idx, sel["mask"]) if m]
+    return [idx[i] for i in sel["idx"]]
+
+
+def g_selection(rng, n):
+    r = rng.random()
+    if r < 0.45:
+        a = rng.randrange(0, n + 1)
+        b = rng.randrange(a, n + 1)
+        return {"slice": [a, b, rng.choice([1, 1, 1, 2])]}
+    if r < 0.75:
+        return {"mask": [rng.random() < 0.6 for _ in range(n)]}
+    return {"idx": sorted(rng.sample(range(n), rng.randrange(0, n + 1))) if rng.random() < 0.6 else [rng.randrange(n) for _ in range(rng.choice([1, 2, 3]))]}
+
+
+def rewrite_cases(tier, rng):
+    """a table READ LAZILY from a text file, row-indexed into pieces; the pieces written as np.concatenate(pieces) in
+    one call, or one after the other: the output must be the selected source lines, once each, header once"""
+    per = {"quick": 40, "thorough": 600, "widen": 150}[tier]
+    for fmt in REWRITE_FMTS:
+        for _ in range(per):
+            n = rng.choice([1, 2, 3, 4, 6, 9])
+            rows = [g_row(rng, fmt) for _ in range(n)]
+            sels = [g_selection(rng, n) for _ in range(rng.choice([1, 2, 2, 3, 4]))]
+            yield {"op": "rewrite", "fmt": fmt, "rows": rows, "sel": sels,
+                   "how": rng.choice(["concat", "concat", "successive", "concat_twice"]), "gz": rng.random() < 0.25}
 
 
 def _pieces(c):
@@ -289,13 +359,58 @@ def _table(fmt, rows):
     return cls(*cols)
 
 
+def _impl_rewrite(c):
+    import logging
+    import numpy as np
+    import bionumpy as bnp
+    logging.disable(logging.CRITICAL)
+    fmt = c["fmt"]
+    BT = _bt(T[fmt][0])
+    d = _tmpdir()
+    src = os.path.join(d, "src" + T[fmt][2])
+    dst = os.path.join(d, "dst" + T[fmt][2] + (".gz" if c.get("gz") else ""))
+    with open(src, "wb") as fh:
+        fh.write((SRC_HEADER.get(fmt, "") + ref_body(fmt, c["rows"])).encode("latin1"))
+    if os.path.exists(dst):
+        os.remove(dst)
+    try:
+        r = bnp.open(src, buffer_type=BT)
+        try:
+            data = r.read()                                  # lazy by default
+            pieces = []
+            for sel in c["sel"]:
+                if "slice" in sel:
+                    a, b, st = sel["slice"]
+                    pieces.append(data[a:b:st])
+                elif "mask" in sel:
+                    pieces.append(data[np.array(sel["mask"], dtype=bool)])
+                else:
+                    pieces.append(data[np.array(sel["idx"], dtype=int)])
+            with bnp.open(dst, "w", buffer_type=BT) as f:
+                if c["how"] == "successive":
+                    for p in pieces:
+                        f.write(p)
+                else:
+                    f.write(np.concatenate(pieces))
+                    if c["how"] == "concat_twice":
+                        f.write(np.concatenate(pieces[:1]))
+        finally:
+            r.close()
+        raw = open(dst, "rb").read()
+        return {"bytes": (gzip.decompress(raw) if c.get("gz") and raw else raw).decode("latin1")}
+    except Exception as e:
+        return {"err": "rewrite:" + type(e).__name__}
+
+
 def impl(c):
+    if c["op"] == "rewrite":
+        return _impl_rewrite(c)
     import logging
     import bionumpy as bnp
     from bionumpy.streams import NpDataclassStream
     logging.disable(logging.CRITICAL)
     fmt, mode = c["fmt"], c["mode"]
-    BT = c02._buffer_type(T[fmt][0])
+    BT = _bt(T[fmt][0])
     gz = mode.endswith("gzip")
     p = os.path.join(_tmpdir(), "w" + T[fmt][2] + (".gz" if gz else ""))
     if os.path.exists(p):
@@ -390,6 +505,12 @@ def oracle(c):
     fmt = c["fmt"]
     if not _representable(fmt, c["rows"]):
         return SKIP
+    if c["op"] == "rewrite":
+        n = len(c["rows"])
+        order = [i for sel in c["sel"] for i in _select(n, sel)]
+        if c["how"] == "concat_twice":
+            order += _select(n, c["sel"][0])
+        return {"bytes": SRC_HEADER.get(fmt, "") + ref_body(fmt, [c["rows"][i] for i in order])}
     # a header (if the format has one) stands exactly once in front as soon as one write call was made
     return {"body": ref_body(fmt, c["rows"]), "headers": 1 if (fmt in HAS_HEADER and n_calls(c) > 0) else 0}
 
@@ -408,7 +529,12 @@ def _expected_read(c):
     return {"n": len(rows), "cols": cols}
 
 
-def _split_header(text):
+def _split_header(text, fmt=None):
+    if fmt == "csvh":
+        k = 0
+        while text.startswith(CSVH_HEADER, k):
+            k += len(CSVH_HEADER)
+        return text[:k], text[k:]
     i = 0
     lines = text.split("\n")
     k = 0
@@ -421,14 +547,16 @@ def _split_header(text):
 def agree(c, got, exp):
     if not isinstance(got, dict) or "bytes" not in got:
         return False
+    if c["op"] == "rewrite":
+        return got["bytes"] == exp["bytes"]
     fmt = c["fmt"]
     text = got["bytes"]
     if fmt in HAS_HEADER:
-        head, body = _split_header(text)
-        n_hdr = len(re.findall(r"(^|\n)#CHROM\t", head))
+        head, body = _split_header(text, fmt)
+        n_hdr = len(re.findall(r"(^|\n)#CHROM\t", head)) if fmt != "csvh" else len(head) // len(CSVH_HEADER)
         if n_hdr != exp["headers"] or (exp["headers"] == 0 and head):
             return False
-        if any(l.startswith("#") for l in body.split("\n")):
+        if fmt != "csvh" and any(l.startswith("#") for l in body.split("\n")):
             return False
     else:
         body = text
@@ -444,7 +572,9 @@ def agree_model(c, got, m):
 
 
 def model_request(c):
-    """cells as text for the externals (str(float), alphabet decode); ints stay ints (formatInt is modelled)"""
+    """(op "rewrite" is implementation vs reference only: it is not in MODEL_OPS) cells as text for the externals (str(float), alphabet decode); ints stay ints (formatInt is modelled)"""
+    if c["op"] != "write":
+        return None
     fmt = c["fmt"]
     kinds = [k for _, k in T[fmt][3]]
     rows = []
@@ -467,6 +597,8 @@ def model_request(c):
 
 
 def nontrivial(c):
+    if c["op"] == "rewrite":
+        return len(c["sel"]) >= 2 or c["how"] != "concat"
     if c["cuts"] or c["mode"] != "plain":
         return True
     if c["fmt"] == "fasta":
@@ -476,6 +608,9 @@ def nontrivial(c):
 
 def finding_key(c, got, exp):
     fmt = c["fmt"]
+    if c["op"] == "rewrite":
+        kind = "raises" if (isinstance(got, dict) and "err" in got) else "bytes-differ"
+        return f"rewrite-lazy-pieces:{fmt}:{c['how']}:{kind}"
     if fmt == "fasta" and any(len(r[1]) == 0 for r in c["rows"]):
         return "fasta-write:empty-sequence"
     if isinstance(got, dict) and got.get("err", "").startswith("write:"):
@@ -486,10 +621,10 @@ def finding_key(c, got, exp):
         return f"{fmt}:read-back-raises"
     if isinstance(got, dict) and "bytes" in got:
         text = got["bytes"]
-        body = _split_header(text)[1] if fmt in HAS_HEADER else text
+        body = _split_header(text, fmt)[1] if fmt in HAS_HEADER else text
         if body != exp["body"]:
             return f"{fmt}:bytes-differ"
-        if fmt in HAS_HEADER and len(re.findall(r"(^|\n)#CHROM\t", text)) != exp["headers"]:
+        if fmt in HAS_HEADER:
             return f"{fmt}:header-count:{c['mode']}"
         return f"{fmt}:read-back-differs"
     return f"{fmt}:other"
